@@ -106,3 +106,29 @@ Example C03_same_slot_example :
   find_time (rev (map (align1 10) (sort_points batch2))) 1700000000 = Some 1 /\
   find_time (rev (map (align1 10) (sort_points batch3))) 1700000000 = Some 1.
 Proof. vm_compute. auto. Qed.
+
+(** ** the calls that read the clock: [Whisper.Update] / [UpdateMany] are the best-archive updates at
+    the instant the library's clock shows (operations [setclock], [wupd], [wmany]) *)
+From WT Require Import Model.Handle.
+Theorem C03_update_reads_the_clock F clock h t v :
+  w_update F clock h t v = h_update F h ArchiveIDBest t v clock.
+Proof. reflexivity. Qed.
+Print Assumptions C03_update_reads_the_clock.
+
+Theorem C03_update_many_reads_the_clock F clock h pts :
+  w_update_many F clock h pts = h_update_many F h pts ArchiveIDBest clock.
+Proof. reflexivity. Qed.
+Print Assumptions C03_update_many_reads_the_clock.
+
+Theorem C03_clock_update_accept_iff F clock h t v :
+  0 < hd_maxret h <= clock -> clock < TMAX -> 0 <= t < 2^32 ->
+  (snd (w_update F clock h t v) = OutErr <-> (t <= clock - hd_maxret h \/ clock < t)).
+Proof.
+  intros Hm Hc Ht. rewrite C03_update_reads_the_clock. unfold h_update.
+  pose proof (single_update_accept_iff F (hd_method h) (hd_xff h) (hd_maxret h) (hd_arcs h) ArchiveIDBest t v clock Hm Hc Ht) as H.
+  destruct (update_point_for_archive F (hd_method h) (hd_xff h) (hd_maxret h) (hd_arcs h) ArchiveIDBest t v clock) eqn:E; cbn [snd].
+  - split; intros _; [now apply H | reflexivity].
+  - split; [discriminate|]. intros X. apply H in X. discriminate.
+  - split; [discriminate|]. intros X. apply H in X. discriminate.
+Qed.
+Print Assumptions C03_clock_update_accept_iff.
